@@ -125,6 +125,32 @@ func Normalise(opt LoadOptions, testIdents map[string]bool, loadFn func(map[stri
 		if round == maxInlineRounds {
 			break
 		}
+		// names that were renamed are renamed back first, so that renamed anchors
+		// are neither inlined as if they were new helpers nor missed by the rules
+		if redits, rmsgs := renameRound(pkgs, overlay); len(redits) > 0 {
+			log = append(log, rmsgs...)
+			prev = map[string][]byte{}
+			for k, v := range overlay {
+				prev[k] = v
+			}
+			for path, content := range redits {
+				overlay[path] = content
+			}
+			changed = true
+			continue
+		}
+		if redits, rmsgs := reshapeRound(pkgs, overlay); len(redits) > 0 {
+			log = append(log, rmsgs...)
+			prev = map[string][]byte{}
+			for k, v := range overlay {
+				prev[k] = v
+			}
+			for path, content := range redits {
+				overlay[path] = content
+			}
+			changed = true
+			continue
+		}
 		edits, msgs, bad := inlineRound(pkgs, overlay, testIdents, &counter)
 		log = append(log, msgs...)
 		if bad {
@@ -847,6 +873,7 @@ func pruneImports(src []byte, pkg *packages.Package) []byte {
 // function the anchor list does not know?
 func hasNewFunctions(repo string, overlay map[string][]byte) (bool, map[string]bool) {
 	testIdents := map[string]bool{} // "dir\x00name" for identifiers used in _test.go files
+	presentKeys := map[string]bool{}
 	found := false
 	var walk func(dir, pkgPath string)
 	walk = func(dir, pkgPath string) {
@@ -882,6 +909,50 @@ func hasNewFunctions(repo string, overlay map[string][]byte) (bool, map[string]b
 				continue
 			}
 			for _, d := range f.Decls {
+				// what is present, by inventory key (to notice names that disappeared: renames)
+				switch x := d.(type) {
+				case *ast.FuncDecl:
+					presentKeys[funcKey(pkgPath, x)] = true
+					if want, ok := anchorSigs["syn:"+funcKey(pkgPath, x)]; ok && want != synSig(fs, x, readSource(full, overlay)) {
+						found = true // same name, other signature as written
+					}
+				case *ast.GenDecl:
+					for _, sp := range x.Specs {
+						switch y := sp.(type) {
+						case *ast.ValueSpec:
+							for _, nm := range y.Names {
+								presentKeys["var:"+pkgPath+"."+nm.Name] = true
+							}
+						case *ast.TypeSpec:
+							presentKeys["type:"+pkgPath+"."+y.Name.Name] = true
+							switch t := y.Type.(type) {
+							case *ast.StructType:
+								for _, fl := range t.Fields.List {
+									for _, nm := range fl.Names {
+										presentKeys["field:"+pkgPath+"."+y.Name.Name+"."+nm.Name] = true
+									}
+									if len(fl.Names) == 0 {
+										e := fl.Type
+										if st, ok := e.(*ast.StarExpr); ok {
+											e = st.X
+										}
+										if se, ok := e.(*ast.SelectorExpr); ok {
+											presentKeys["field:"+pkgPath+"."+y.Name.Name+"."+se.Sel.Name] = true
+										} else if id, ok := e.(*ast.Ident); ok {
+											presentKeys["field:"+pkgPath+"."+y.Name.Name+"."+id.Name] = true
+										}
+									}
+								}
+							case *ast.InterfaceType:
+								for _, fl := range t.Methods.List {
+									for _, nm := range fl.Names {
+										presentKeys["imethod:"+pkgPath+"."+y.Name.Name+"."+nm.Name] = true
+									}
+								}
+							}
+						}
+					}
+				}
 				if fd, ok := d.(*ast.FuncDecl); ok && fd.Name.Name != "init" && fd.Name.Name != "_" {
 					if !anchorFuncs[funcKey(pkgPath, fd)] {
 						found = true
@@ -900,6 +971,11 @@ func hasNewFunctions(repo string, overlay map[string][]byte) (bool, map[string]b
 		}
 	}
 	walk(repo, modulePath)
+	for k := range anchorSigs {
+		if !presentKeys[k] && !strings.HasPrefix(k, "names:") && !strings.HasPrefix(k, "syn:") {
+			found = true // a name the rules know has disappeared: possibly renamed
+		}
+	}
 	return found, testIdents
 }
 
@@ -1029,4 +1105,17 @@ func goArgsOnce(filename string, src []byte) ([]byte, bool) {
 		buf = append(buf[:e.lo], append([]byte(e.text), buf[e.hi:]...)...)
 	}
 	return buf, true
+}
+
+// synSig: the parameter and result lists of a declaration as written, blanks
+// collapsed — a cheap way for the pre-scan to notice that a function the rules
+// know has changed its signature (permuted parameters, say).
+func synSig(fs *token.FileSet, fd *ast.FuncDecl, src []byte) string {
+	off := func(p token.Pos) int { return fs.Position(p).Offset }
+	end := fd.Type.End()
+	if fd.Type.Params == nil {
+		return ""
+	}
+	txt := string(src[off(fd.Type.Params.Pos()):off(end)])
+	return strings.Join(strings.Fields(txt), " ")
 }
